@@ -30,6 +30,7 @@ def run(tier, seed, jobs):
         "explained by a FIFO lock + FIFO wait-queue reference automaton (powerset simulation)"
     )
     return {"level": "model_checking", "coverage": cov, "violations": viol,
+            "harness_errors": cov.pop("harness_errors", []),
             "assumptions": ["VLoop reproduces asyncio.BaseEventLoop batching"]}
 
 
